@@ -211,7 +211,13 @@ func budget(p *Prop, tier string) Budget {
 func nsInit() int {
 	// make mounts private so nothing propagates out
 	syscall.Mount("none", "/", "", syscall.MS_REC|syscall.MS_PRIVATE, "")
-	cmd := exec.Command("/proc/self/exe", os.Args[1:]...)
+	nsArgs := append([]string(nil), os.Args[1:]...)
+	for i, a := range nsArgs { // (coverage aid: the worker's profile must not be overwritten by this process's own)
+		if strings.HasPrefix(a, "-test.coverprofile=") {
+			nsArgs[i] = a + ".w"
+		}
+	}
+	cmd := exec.Command("/proc/self/exe", nsArgs...)
 	env := []string{}
 	for _, e := range os.Environ() {
 		if !strings.HasPrefix(e, "VERIF_ROLE=") {
@@ -254,6 +260,9 @@ func nsInit() int {
 func spawn(p *Prop, role string, extra []string, out string) *exec.Cmd {
 	self, _ := os.Executable()
 	args := []string{"-test.run", "^TestSim$", "-test.timeout", "0"}
+	if d := os.Getenv("VERIF_COVER_DIR"); d != "" { // development aid (bin/covrun): which library code do the checks execute at all
+		args = append(args, "-test.coverprofile="+filepath.Join(d, fmt.Sprintf("%s-%s-%d.out", p.ID, role, time.Now().UnixNano())))
+	}
 	var cmd *exec.Cmd
 	env := append(os.Environ(), extra...)
 	if p.NeedNS {
